@@ -158,6 +158,13 @@ def _domain(acc, dt, trap=True, min_len=2):
             return 'dt-type'
         if not (f > 0 and np.isfinite(f)):
             return 'dt-not-positive'
+        if arr.dtype.kind in 'fc' and len(arr):
+            # the integrals themselves must be representable in the record's dtype (else inf is the right answer)
+            with np.errstate(over='ignore'):
+                top = float(np.max(np.abs(arr.astype(complex if arr.dtype.kind == 'c' else float))))
+                span = max(1.0, len(arr) * f, (len(arr) * f) ** 2)
+            if not top * span < (1e37 if arr.dtype.itemsize <= (8 if arr.dtype.kind == 'c' else 4) else 1e305):
+                return 'integral-not-representable'
     return None
 
 
@@ -639,8 +646,30 @@ def pick_record(rng, n):
             x = a0 + k * np.arange(n, dtype=float)
             lin = (a0, k)
     else:
-        x, cls = gen.record(rng, n)
+        x, cls = gen.record(rng, n, extreme=True)        # 4 %: amplitude 1e+-165 .. 1e+-220 ('/extreme-scale')
+        if 'extreme' not in cls and rng.random() < 0.08:
+            # uniformly tiny / huge, 1e-150 next to 1e150, ripple on a baseline, counts above 2**24
+            x, suffix = gen.special_scale(rng, x)
+            cls = cls + suffix
     return np.asarray(x, dtype=float), cls, lin
+
+
+SPECIAL_MARKS = ('extreme', '-ripple-on-baseline', '-counts-above')
+WIDE_KINDS = ['f64', 'f64', 'list', 'tuple', 'strided', 'reversed', 'readonly']
+
+
+def _special(cls):
+    return any(m in cls for m in SPECIAL_MARKS)
+
+
+def _fit_range(x, n, dt):
+    """Scale a huge record down just enough that its double integral, times the factors the relations apply
+    (|alpha| <= 100, 2^k <= 32), is still a finite double (the statement cannot hold for unrepresentable results)."""
+    peak = float(np.max(np.abs(x))) if len(x) else 0.0
+    span = max(1.0, (n * abs(float(dt))) ** 2, n * abs(float(dt)))
+    if peak > 0 and peak * span * 3200.0 > 1e300:
+        x = x * (1e300 / (peak * span * 3200.0))
+    return x
 
 
 def _shaped_record(rng, n, cls):
@@ -758,8 +787,13 @@ def make_array_case(rng, n=None, kinds=None):
     kinds = ARRAY_CONTAINERS if kinds is None else kinds
     kind = kinds[int(rng.integers(len(kinds)))]
     dt = pick_dt(rng)
+    if _special(cls):       # these scales exist in float64 only
+        kind = WIDE_KINDS[int(rng.integers(len(WIDE_KINDS)))]
+        x = _fit_range(x, n, dt)
     base, cont, lin = to_container(rng, x, kind, lin, dt)
     y, ycls, _ = pick_record(rng, n)
+    if _special(ycls):
+        y = _fit_range(y, n, dt)
     return {'kind': 'arraycase', 'acc': base, 'container': cont, 'ckind': kind, 'cls': cls, 'dt': dt,
             'dt_kind': _dt_kind(dt), 'lin': list(lin) if lin is not None else None,
             'fn': 'calc_velo_and_disp_from_accel_arr' if rng.random() < 0.75 else
@@ -769,7 +803,8 @@ def make_array_case(rng, n=None, kinds=None):
             'alpha': float(rng.choice([-1.0, 1.0]) * 10.0 ** rng.uniform(-2, 2)),
             'beta': float(rng.choice([-1.0, 1.0]) * 10.0 ** rng.uniform(-2, 2)),
             'other': y, 'deprecated_peak': bool(rng.random() < 0.1),
-            'style': CALL_STYLES[int(rng.integers(len(CALL_STYLES)))]}
+            'style': CALL_STYLES[int(rng.integers(len(CALL_STYLES)))],
+            'xalpha': float(rng.choice([-1.0, 1.0]) * 10.0 ** (rng.uniform(165, 200) * rng.choice([-1.0, 1.0])))}
 
 
 MUTATORS = ['reset_values', 'add_constant', 'add_series', 'add_signal', 'remove_average', 'remove_poly',
@@ -831,6 +866,9 @@ def make_object_scenario(rng, nmax=1500, n=None):
     x, cls, _ = pick_record(rng, n)
     kind = OBJ_CONTAINERS[int(rng.integers(len(OBJ_CONTAINERS)))]
     dt = pick_dt(rng)
+    if _special(cls):
+        kind = WIDE_KINDS[int(rng.integers(len(WIDE_KINDS)))]
+        x = _fit_range(x, n, dt)
     base, cont, _ = to_container(rng, x, kind, None, dt)
     ops = []
     rs_ok = n <= 2500
@@ -852,15 +890,20 @@ def make_object_scenario(rng, nmax=1500, n=None):
         if m == 'reset_values':
             n = pick_n(rng, nmax)
             rs_ok = n <= 2500
-            y, _, _ = pick_record(rng, n)
-            b, c, _ = to_container(rng, y, OBJ_CONTAINERS[int(rng.integers(len(OBJ_CONTAINERS)))], None, dt)
+            y, ycls, _ = pick_record(rng, n)
+            yk = OBJ_CONTAINERS[int(rng.integers(len(OBJ_CONTAINERS)))]
+            if _special(ycls):
+                yk, y = WIDE_KINDS[int(rng.integers(len(WIDE_KINDS)))], _fit_range(y, n, dt)
+            b, c, _ = to_container(rng, y, yk, None, dt)
             op = [m, b, c]
         elif m == 'add_constant':
             op = [m, [1, -2, 0.5, float(rng.normal() * 10.0 ** rng.uniform(-2, 2))][int(rng.integers(4))]]
         elif m in ('add_series', 'add_signal'):
-            y, _, _ = pick_record(rng, n)
-            b, c, _ = to_container(rng, y, ['f64', 'list', 'i64', 'f32', 'readonly', 'reversed', 'mixedlist', 'i16'][
-                int(rng.integers(8))], None, dt)
+            y, ycls, _ = pick_record(rng, n)
+            yk = ['f64', 'list', 'i64', 'f32', 'readonly', 'reversed', 'mixedlist', 'i16'][int(rng.integers(8))]
+            if _special(ycls):
+                yk, y = 'f64', _fit_range(y, n, dt)
+            b, c, _ = to_container(rng, y, yk, None, dt)
             op = [m, b, c]
         elif m == 'remove_poly':
             op = [m, int(rng.integers(0, min(3, n - 1) + 1))]
@@ -1086,10 +1129,33 @@ def _array_case(eqsig, ctx, case, held):
             f = abs(alpha)
             eps = epsx
             tv, td = _rel_tols(eps, n, dt, 2 * f * Vx, 2 * f * Ax, 2 * f * Dx)
-            okp = abs(q_x - f * p_x) <= 4 * eps * f * p_x and abs(q_v - f * p_v) <= tv and abs(q_d - f * p_d) <= td
+            okp = (abs(q_x - f * p_x) <= 4 * eps * f * p_x + O.underflow_floor(eps)
+                   and abs(q_v - f * p_v) <= tv and abs(q_d - f * p_d) <= td)
             ctx.check(okp, 'peak.scale|alpha|', wit,
                       'peaks of (%r * record): PGA %r PGV %r PGD %r; |alpha| * peaks of record: %r %r %r (allowed dv '
                       '%.3g dd %.3g, trap=%r)' % (alpha, q_x, q_v, q_d, f * p_x, f * p_v, f * p_d, tv, td, trap))
+    # |alpha| scaling across ~180 decades: a record whose SQUARES under- / overflow while every value, its integrals
+    # and its peaks are ordinary finite doubles (float64 records only)
+    xa = case.get('xalpha')
+    if xa is not None and base.dtype.kind in 'iu' or (xa is not None and base.dtype == np.float64):
+        xa = float(xa)
+        f = abs(xa)
+        span = max(1.0, n * abs(float(dt)), (n * abs(float(dt))) ** 2)
+        if 0 < Ax and 1e-290 < Ax * f * min(1.0, float(dt), float(dt) ** 2) and Ax * f * span < 1e300:
+            Y = materialise(xs * xa, cont if cont in ('list', 'tuple', 'strided', 'reversed', 'readonly') else 'array')
+            r = _call_int(ctx, fn, fname, Y, dt, trap, case)
+            q_x = _peak(ctx, eqsig, Y, case)
+            if r is not None and np.shape(r[0]) == (n,) and np.shape(r[1]) == (n,) and None not in (p_x, p_v, p_d, q_x):
+                q_v = _peak(ctx, eqsig, r[0], case)
+                q_d = _peak(ctx, eqsig, r[1], case)
+                if q_v is not None and q_d is not None:
+                    tv, td = _rel_tols(epsx, n, dt, 2 * f * Vx, 2 * f * Ax, 2 * f * Dx)
+                    okp = (abs(q_x - f * p_x) <= 4 * epsx * f * p_x and abs(q_v - f * p_v) <= tv
+                           and abs(q_d - f * p_d) <= td)
+                    ctx.check(okp, 'peak.scale|alpha|.extreme', wit,
+                              'peaks of (%r * record): PGA %r PGV %r PGD %r; |alpha| * peaks of record: %r %r %r '
+                              '(allowed dv %.3g dd %.3g, trap=%r)'
+                              % (xa, q_x, q_v, q_d, f * p_x, f * p_v, f * p_d, tv, td, trap))
     # linearity: z = alpha*x + beta*y (float64 combination)
     y = O.f64(case['other'])
     if len(y) == n:
